@@ -10,6 +10,8 @@ package internal
 import (
 	"encoding/json"
 	"fmt"
+	"net/http"
+	"net/http/httptest"
 	"os"
 	"os/exec"
 	"path/filepath"
@@ -20,6 +22,7 @@ import (
 	"testing/synctest"
 	"time"
 
+	"github.com/markusressel/fan2go/internal/api"
 	"github.com/markusressel/fan2go/internal/configuration"
 	"github.com/markusressel/fan2go/internal/fans"
 	"github.com/markusressel/fan2go/internal/persistence"
@@ -27,6 +30,7 @@ import (
 	"github.com/markusressel/fan2go/internal/verifshim/mc"
 	"github.com/markusressel/fan2go/internal/verifshim/vsignal"
 	"github.com/md14454/gosensors"
+	"github.com/prometheus/client_golang/prometheus"
 	"github.com/spf13/viper"
 )
 
@@ -64,6 +68,10 @@ type vxJob struct {
 	// the same job shows just before the final SIGTERM (oracle "keeps regulating").
 	TempStepTo     int `json:"tempStepTo,omitempty"`
 	ExpectFinalPwm int `json:"expectFinalPwm,omitempty"`
+	// Observers: REST API requests (every list and item endpoint) and Prometheus scrapes run every 50 virtual ms while the
+	// daemon regulates. Trace: every PWM write of fan2go is logged as an event ("pwmwrite <fan> <value>").
+	Observers bool `json:"observers,omitempty"`
+	Trace     bool `json:"trace,omitempty"`
 }
 
 func (j vxJob) Describe() string {
@@ -289,6 +297,28 @@ func TestVX_daemonChild(t *testing.T) {
 				vxAppend(events, fmt.Sprintf("%s sensor now reads %d", stamp(), job.TempStepTo))
 			}()
 		}
+		if job.Observers {
+			rest := api.CreateRestService()
+			paths := []string{"/fan/", "/sensor/", "/curve/", "/curve/vxcurve/", "/alive/"}
+			for _, f := range job.Fans {
+				paths = append(paths, "/fan/"+f.ID+"/")
+			}
+			go func() {
+				for {
+					time.Sleep(50*time.Millisecond + 3*time.Microsecond)
+					for _, p := range paths {
+						rec := httptest.NewRecorder()
+						rest.ServeHTTP(rec, httptest.NewRequest(http.MethodGet, p, nil))
+						if rec.Code >= 500 {
+							vxAppend(events, fmt.Sprintf("%s api %s -> %d", stamp(), p, rec.Code))
+						}
+					}
+					if _, err := prometheus.DefaultGatherer.Gather(); err != nil {
+						vxAppend(events, stamp()+" gather error: "+err.Error())
+					}
+				}
+			}()
+		}
 		// fault windows
 		active := map[string]string{} // component -> kind
 		pathRole := func(path, kind string) string {
@@ -345,6 +375,13 @@ func TestVX_daemonChild(t *testing.T) {
 				}
 			}
 			role := pathRole(path, kind)
+			if job.Trace && role == "pwmwrite" {
+				for i, d := range w.fans {
+					if d.pwm == path {
+						vxAppend(events, fmt.Sprintf("%s pwmwrite %s %d", stamp(), job.Fans[i].ID, value))
+					}
+				}
+			}
 			if k, ok := active[role]; ok && role != "" {
 				vxAppend(events, fmt.Sprintf("%s fault %s:%s on %s %s=%d", stamp(), role, k, kind, filepath.Base(path), value))
 				switch k {
